@@ -244,7 +244,7 @@ Lemma move_hdrs_eq (l : list row) :
          let nn := path_join2 to (trim_prefix (trim_prefix [slash] from) (trim_prefix [slash] (r_name x))) in
          with_size_name (set_pax h (pax_set K_replaces_name (r_name x)
                                      (pax_set K_action V_update (pax_set K_version V_1
-                                        (pax_del K_replaces_content (h_pax h)))))) 0 nn) l
+                                        (pax_del K_replaces_content (keep_size h)))))) 0 nn) l
   = map mk l.
 Proof. reflexivity. Qed.
 
